@@ -23,6 +23,7 @@ import (
 	"go/token"
 	"os"
 	"path/filepath"
+	"regexp"
 	"sort"
 	"strings"
 )
@@ -36,15 +37,104 @@ func (p c20Path) key() string { return strings.Join(p.toks, " ") + " !" + p.term
 
 type c20Extractor struct {
 	fset *token.FileSet
+	// local variable names of (*Runner).Run → the canonical names the recognisers use, so that
+	// renaming a local does not change the extracted paths
+	alias map[string]string
 	// statistics
 	nIf, nStmts int
 }
 
+// src prints a node on one line with the aliased identifiers renamed.
 func (x *c20Extractor) src(n ast.Node) string {
+	var b bytes.Buffer
+	_ = printer.Fprint(&b, x.fset, n)
+	out := strings.Join(strings.Fields(b.String()), " ")
+	if len(x.alias) == 0 {
+		return out
+	}
+	var sb strings.Builder
+	isId := func(c byte) bool {
+		return c == '_' || (c >= '0' && c <= '9') || (c >= 'a' && c <= 'z') || (c >= 'A' && c <= 'Z')
+	}
+	for i := 0; i < len(out); {
+		if isId(out[i]) && (i == 0 || (!isId(out[i-1]) && out[i-1] != '.')) {
+			j := i
+			for j < len(out) && isId(out[j]) {
+				j++
+			}
+			w := out[i:j]
+			if a, ok := x.alias[w]; ok {
+				w = a
+			}
+			sb.WriteString(w)
+			i = j
+			continue
+		}
+		sb.WriteByte(out[i])
+		i++
+	}
+	return sb.String()
+}
+
+func (x *c20Extractor) rawSrc(n ast.Node) string {
 	var b bytes.Buffer
 	_ = printer.Fprint(&b, x.fset, n)
 	return strings.Join(strings.Fields(b.String()), " ")
 }
+
+// learnAliases finds the declarations that introduce the locals the recognisers refer to.
+func (x *c20Extractor) learnAliases(body *ast.BlockStmt) {
+	x.alias = map[string]string{}
+	set := func(e ast.Expr, canon string) {
+		if id, ok := e.(*ast.Ident); ok && id.Name != "_" && id.Name != canon {
+			x.alias[id.Name] = canon
+		}
+	}
+	ast.Inspect(body, func(n ast.Node) bool {
+		switch v := n.(type) {
+		case *ast.AssignStmt:
+			if len(v.Rhs) != 1 {
+				return true
+			}
+			call, ok := v.Rhs[0].(*ast.CallExpr)
+			if !ok {
+				return true
+			}
+			fun := x.rawSrc(call.Fun)
+			switch {
+			case fun == "newReloadManager" && len(v.Lhs) == 1 && len(call.Args) == 3:
+				set(v.Lhs[0], "reloadManager")
+				set(call.Args[0], "reloadReqs")
+				set(call.Args[1], "runStateChanges")
+				set(call.Args[2], "sigs")
+			case fun == "waitReloadReadyOrSignal" && len(v.Lhs) == 2:
+				set(v.Lhs[0], "waitResult")
+				set(v.Lhs[1], "termSig")
+			case strings.HasSuffix(fun, ".reloadError") && len(v.Lhs) == 1:
+				set(v.Lhs[0], "reloadErr")
+			case strings.HasSuffix(fun, ".currentPendingStagedHandoff") && len(v.Lhs) == 1:
+				set(v.Lhs[0], "handoff")
+			}
+		case *ast.DeclStmt:
+			if gd, ok := v.Decl.(*ast.GenDecl); ok {
+				for _, sp := range gd.Specs {
+					if vs, ok := sp.(*ast.ValueSpec); ok && vs.Type != nil && x.rawSrc(vs.Type) == "*control.Listener" && len(vs.Names) == 1 && len(x.alias) < 64 {
+						if _, dup := x.alias["\x00listener"]; !dup {
+							x.alias["\x00listener"] = "seen"
+							if vs.Names[0].Name != "listener" {
+								x.alias[vs.Names[0].Name] = "listener"
+							}
+						}
+					}
+				}
+			}
+		}
+		return true
+	})
+	delete(x.alias, "\x00listener")
+}
+
+var c20RetireGuard = regexp.MustCompile(`^\w+ != nil && reloadManager\.currentPendingStagedHandoff\(\) == nil$`)
 
 // guards recognised by the exact (whitespace-normalised) source text of the condition.
 var c20Guards = map[string]string{
@@ -54,7 +144,6 @@ var c20Guards = map[string]string{
 	"reloadErr == nil":                                                 "errnil",
 	"waitResult == reloadReadyWaitSignal && termSig != nil":            "term",
 	"waitResult != reloadReadyWaitReady":                               "notready",
-	"oldC != nil && reloadManager.currentPendingStagedHandoff() == nil": "retire",
 }
 
 // pure reads of the manager: no token.
@@ -279,6 +368,9 @@ func (x *c20Extractor) stmt(s ast.Stmt) []c20Path {
 		cond := x.src(v.Cond)
 		pre = append(pre, x.exprTokens(v.Cond)...)
 		g := c20Guards[cond]
+		if g == "" && c20RetireGuard.MatchString(cond) {
+			g = "retire"
+		}
 		thenP := x.block(v.Body.List)
 		var elseP []c20Path
 		if v.Else != nil {
@@ -384,6 +476,7 @@ func c20ExtractRegions(repo string) (*c20Regions, error) {
 	if run == nil {
 		return nil, fmt.Errorf("(*Runner).Run not found")
 	}
+	x.learnAliases(run.Body)
 	var workerBody, handlerBody, signalBody []ast.Stmt
 	nWorker, nHandler, nSignal := 0, 0, 0
 	ast.Inspect(run.Body, func(n ast.Node) bool {
